@@ -51,7 +51,7 @@ var alphabet = []string{
 	`<iframe src="//evil.example"></iframe>`,
 	`<!-- c -->`,
 	`<xq7 data-xq7="1">`, // canary tag + attribute
-	`<xq7 data-xq7=`, // unclosed tag
+	`<xq7 data-xq7=`,     // unclosed tag
 	"<div data-xq7=1>\n", // HTML block (type 6)
 	// --- script-capable schemes: inline links, images, autolinks, references ---
 	`[a](javascript:alert(1))`,
@@ -276,16 +276,16 @@ type viol struct {
 }
 
 var (
-	mu        sync.Mutex
-	minimal   = map[finding][][]int{} // per finding: fragment sequences of already reported (minimal) violations
-	pending   []viol
-	firstLen  = map[finding]int{}
-	further   atomic.Int64
+	mu             sync.Mutex
+	minimal        = map[finding][][]int{} // per finding: fragment sequences of already reported (minimal) violations
+	pending        []viol
+	firstLen       = map[finding]int{}
+	further        atomic.Int64
 	furtherSamples int
-	subsumed  atomic.Int64
-	featCount sync.Map // feature -> *atomic.Int64
-	renderErr atomic.Int64
-	panics    atomic.Int64
+	subsumed       atomic.Int64
+	featCount      sync.Map // feature -> *atomic.Int64
+	renderErr      atomic.Int64
+	panics         atomic.Int64
 )
 
 // contains reports whether sub is a (not necessarily contiguous) subsequence of seq.
@@ -307,12 +307,9 @@ func bump(k string) {
 	v.(*atomic.Int64).Add(1)
 }
 
-func evalSeq(seq []int) {
-	var sb strings.Builder
-	for _, i := range seq {
-		sb.WriteString(alphabet[i])
-	}
-	doc := sb.String()
+// renderCheck renders one document with the real renderer, parses the HTML like a browser (x/net/html: character
+// references in attribute values are decoded exactly once) and applies the oracle. ok=false: panic / render error.
+func renderCheck(doc string) (fs []finding, ok bool) {
 	var out []byte
 	var err error
 	if rec := vk.Catch(func() { out, err = render([]byte(doc)) }); rec != nil {
@@ -320,12 +317,12 @@ func evalSeq(seq []int) {
 		panics.Add(1)
 		bump("renderer-panic")
 		r.Sample(map[string]any{"renderer_panic": fmt.Sprint(rec), "doc": doc})
-		return
+		return nil, false
 	}
 	r.Eval()
 	if err != nil {
 		renderErr.Add(1)
-		return
+		return nil, false
 	}
 	h := sha256.Sum256(out)
 	r.Distinct(string(h[:]))
@@ -334,7 +331,7 @@ func evalSeq(seq []int) {
 		r.HarnessError("x/net/html cannot parse output of %q: %v", doc, perr)
 	}
 	feats := map[string]bool{}
-	fs := check(nodes, feats)
+	fs = check(nodes, feats)
 	for k := range feats {
 		if strings.HasPrefix(k, "el:") {
 			switch k {
@@ -344,6 +341,26 @@ func evalSeq(seq []int) {
 			}
 		}
 		bump(k)
+	}
+	return fs, true
+}
+
+func bumpN(k string, n int64) {
+	if n > 0 {
+		v, _ := featCount.LoadOrStore(k, new(atomic.Int64))
+		v.(*atomic.Int64).Add(n)
+	}
+}
+
+func evalSeq(seq []int) {
+	var sb strings.Builder
+	for _, i := range seq {
+		sb.WriteString(alphabet[i])
+	}
+	doc := sb.String()
+	fs, ok := renderCheck(doc)
+	if !ok {
+		return
 	}
 	if len(fs) == 0 {
 		return
@@ -419,6 +436,7 @@ func main() {
 	one := flag.String("doc", "", "render one markdown document, print HTML and findings (debug)")
 	maxk := flag.Int("k", 0, "override max sequence length")
 	prof := flag.String("cpuprofile", "", "write cpu profile (debug)")
+	obfOnly := flag.Bool("obfonly", false, "run only the scheme-obfuscation phase (debug)")
 	r = vk.New("exploration")
 	if *prof != "" {
 		f, _ := os.Create(*prof)
@@ -450,6 +468,10 @@ func main() {
 		{`<p><xq7>x</xq7></p>`, "raw-html-passthrough"},
 		{`<input name="a" data-xq7="1">`, "raw-html-passthrough"},
 		{`<svg><a xlink:href="javascript:alert(1)">x</a></svg>`, "script-capable-url"},
+		{`<a href="javascript&#58;alert(1)">x</a>`, "script-capable-url"},
+		{`<a href="&#x6a;avascript&#x3a;alert(1)">x</a>`, "script-capable-url"},
+		{"<a href=\"&#1;&Tab;java&NewLine;script&colon;alert(1)\">x</a>", "script-capable-url"},
+		{`<a href="DATA:text/html;base64,PHNjcmlwdD4=">x</a>`, "script-capable-url"},
 	} {
 		nodes, _ := html.ParseFragment(strings.NewReader(tc.htm), bodyCtx)
 		ok := false
@@ -460,13 +482,26 @@ func main() {
 			r.HarnessError("oracle self-test: %q not flagged as %s", tc.htm, tc.class)
 		}
 	}
-	for _, okh := range []string{`<img src="data:image/svg+xml;base64,PHN2Zz4=">`, `<a href="/r/x$help&amp;func=F">x</a>`, `<p>&lt;script&gt; onerror= javascript:</p><!-- <script> -->`} {
+	// a browser decodes character references ONCE when it parses the attribute and never percent-decodes a scheme:
+	// doubly encoded or percent-encoded schemes in the produced HTML are inert and must not be flagged
+	for _, okh := range []string{`<a href="javascript&amp;#58;alert(1)">x</a>`, `<a href="javascript&amp;colon;alert(1)">x</a>`, `<a href="&amp;#106;avascript:alert(1)">x</a>`,
+		`<a href="javascript%3Aalert(1)">x</a>`, `<a href="%6Aavascript:alert(1)">x</a>`, `<a href="java%09script:alert(1)">x</a>`, `<a href="\javascript:alert(1)">x</a>`,
+		`<img src="data:image/svg+xml;base64,PHN2Zz4=">`, `<a href="/r/x$help&amp;func=F">x</a>`, `<p>&lt;script&gt; onerror= javascript:</p><!-- <script> -->`} {
 		nodes, _ := html.ParseFragment(strings.NewReader(okh), bodyCtx)
 		if fs := check(nodes, map[string]bool{}); len(fs) != 0 {
 			r.HarnessError("oracle self-test: benign %q flagged %v", okh, fs)
 		}
 	}
 
+	// phase 1: systematic scheme obfuscation x link-bearing constructs x containers (obfus.go)
+	obfDocs, obfViolating := obfuscationPhase()
+	bumpN("obfuscation:documents", obfDocs)
+	bumpN("obfuscation:VIOLATING-DOCS", obfViolating)
+
+	if *obfOnly {
+		k = 0
+	}
+	// phase 2: fragment sequences
 	complete := 0
 	perLen := map[string]int64{}
 	for L := 1; L <= k; L++ {
@@ -496,14 +531,17 @@ func main() {
 	r.Sample(map[string]any{"fragments": []string{alphabet[10], alphabet[38], alphabet[44]}, "note": "example document = concatenation of these fragments"})
 	r.Sample(map[string]any{"alphabet_size": n, "alphabet_head": alphabet[:12]})
 	r.Assumptions = []string{
+		"scheme obfuscation (obfus.go): schemes javascript:/vbscript:/data:text/html; encodings {plain, decimal entity, hex entity, named entity (&colon;, &Tab; before, &NewLine; after), backslash escape, percent-encoding, case flip} at first letter / one middle letter / colon; depth 2 = the lead character (& % \\) of a depth-1 encoding encoded again in each of the 5 ways (entity of entity, entity of percent, percent of ampersand, ...). quick: all depth<=1 combinations + depth 2 at one position, in 10 constructs at top level; single-position encodings in 9 constructs inside gno-foreign (definition inside and outside), gno-columns, alert body, alert title, table cell. thorough: every depth<=2 combination at top level and the quick top-level set in 12 containers",
+		"the oracle never decodes twice: x/net/html decodes character references once (as a browser does when parsing an attribute value), the scheme test then strips leading/trailing C0+space and tab/CR/LF, case-folds, and does not percent-decode (self-tested on doubly/percent-encoded href values, which must NOT be flagged)",
 		"documents are concatenations of <=k alphabet fragments; the alphabet (not all byte strings) bounds the input space",
 		"oracle DOM = golang.org/x/net/html fragment parse in <body> context (HTML5 tree construction, entity decoding) stands in for a browser",
 		"data: URLs with media type image/png|gif|jpeg|webp|svg+xml are treated as allowed by the default configuration (goldmark whitelist; gnoweb image validator keeps svg+xml only); every other data:, javascript:, vbscript: after browser-style normalisation is forbidden",
 		"documents reaching markdown.titleCase (forms with exec=, gno-select) are rendered under an exclusive lock: the package-level cases.Caser there is not goroutine-safe (panics under parallel rendering) - a concurrency defect outside this property",
 		"renderer = gnoweb.NewHTMLRenderer(NewDefaultRenderConfig()).RenderRealm, i.e. AppConfig.UnsafeHTML=false",
 	}
-	r.Finish(fmt.Sprintf("all fragment sequences of length 1..%d over a %d-fragment hostile alphabet rendered by RenderRealm (default config), HTML parsed by x/net/html, forbid-list oracle (script-ish elements, on* attributes, canary raw-HTML tag/attribute, script-capable URL schemes after browser normalisation); distinct = distinct rendered HTML outputs", k, n),
+	r.Finish(fmt.Sprintf("every script-capable scheme x every combination of {plain, dec/hex/named entity, backslash, percent, case flip} at {first letter, middle letter, colon} at encoding depth 1 and 2 x every link-bearing construct x top level and every gnoweb container; all fragment sequences of length 1..%d over a %d-fragment hostile alphabet rendered by RenderRealm (default config), HTML parsed by x/net/html, forbid-list oracle (script-ish elements, on* attributes, canary raw-HTML tag/attribute, script-capable URL schemes after browser normalisation); distinct = distinct rendered HTML outputs", k, n),
 		complete == k, map[string]any{
+			"obfuscation_docs": obfDocs, "obfuscation_violating_docs": obfViolating,
 			"alphabet": n, "max_len": k, "complete_len": complete, "docs_per_len": perLen,
 			"subsumed_violating_docs": subsumed.Load(), "further_minimal_violating_docs_not_keyed": further.Load(), "render_errors": renderErr.Load(), "renderer_panics": panics.Load(),
 		})
